@@ -18,6 +18,8 @@
      many       f1 what is repeated, f2 how often, f5 reader (st / mt)
      filter     f1 filter, f2 parameter, f3 data class
      dist       f1 first symbols of a raw LZMA stream whose match distance is beyond the dictionary fill
+     lzma2_seq  f1 first chunk, f2 control byte of the second chunk, f3 its payload, f5 dictionary parameter
+     lzip_multi f1 which member's trailer carries a wrong member_size, f2 the wrong value, f3 number of members, f5 reader
    TLC enumerates, per family, every combination in which at most TWO fields leave their default class
    (pairwise coverage of the first-error-wins parse), exports each case with its expected classes and bound;
    tools/checks/c06.py forges the bytes, runs the real decoders in contained processes and lets TLC
@@ -44,17 +46,23 @@ Fields == [
                  {"10", "1000", "100000"}, {"-"}, {"-"}, {"st", "mt"}>>,
   filter   |-> <<{"delta", "x86", "arm", "armthumb", "arm64", "ppc", "sparc", "ia64", "riscv", "bcj2"}, {"0", "1", "256", "257", "max"},
                  {"random", "zeros", "ff", "opcodes"}, {"-"}, {"-"}>>,
-  dist     |-> <<{"match_at_0", "rep_at_0", "lit_then_far_match"}, {"-"}, {"-"}, {"-"}, {"-"}>>
+  dist     |-> <<{"match_at_0", "rep_at_0", "lit_then_far_match"}, {"-"}, {"-"}, {"-"}, {"-"}>>,
+  \* chunk SEQUENCES: first chunk (uncompressed with dictionary reset / LZMA with full reset), control byte of the second
+  lzma2_seq |-> <<{"01", "e0"}, {"80", "9f", "a0", "bf", "c0", "e0", "02", "01", "03", "00", "none"}, {"valid", "zeros", "ff"}, {"-"}, {"64k", "4096"}>>,
+  \* multi-member LZIP file with the member_size field of ONE trailer wrong
+  lzip_multi |-> <<{"first", "last"}, {"zero", "one", "plus1", "minus1", "2p63", "file_plus"}, {"2", "3"}, {"-"}, {"st", "mt"}>>
 ]
 \* the default class of a field is the first one listed above
 Default == [
   xz_index |-> <<"blocks", "min", "1", "-", "-">>, xz_bh |-> <<"exact", "lzma2", "18", "absent", "ok">>,
   lzma2 |-> <<"e0", "fit", "5d", "valid", "64k">>, lzma |-> <<"5d", "4096", "exact", "valid", "none">>,
   lzip |-> <<"1", "0c", "right", "right", "st">>, many |-> <<"lzip_empty_members", "10", "-", "-", "st">>,
-  filter |-> <<"delta", "1", "random", "-", "-">>, dist |-> <<"match_at_0", "-", "-", "-", "-">>
+  filter |-> <<"delta", "1", "random", "-", "-">>, dist |-> <<"match_at_0", "-", "-", "-", "-">>,
+  lzma2_seq |-> <<"01", "80", "valid", "-", "64k">>, lzip_multi |-> <<"first", "zero", "2", "-", "st">>
 ]
 \* fields that select a scenario rather than deviate from a well-formed file (every value is enumerated)
-Free == [xz_index |-> {3}, xz_bh |-> {}, lzma2 |-> {5}, lzma |-> {5}, lzip |-> {5}, many |-> {1, 2, 5}, filter |-> {1, 2, 3}, dist |-> {1}]
+Free == [xz_index |-> {3}, xz_bh |-> {}, lzma2 |-> {5}, lzma |-> {5}, lzip |-> {5}, many |-> {1, 2, 5}, filter |-> {1, 2, 3}, dist |-> {1},
+         lzma2_seq |-> {1, 2, 3, 5}, lzip_multi |-> {1, 2, 3, 5}]
 
 Dev(fam, c) == Cardinality({i \in 1..5 : i \notin Free[fam] /\ c[i] # Default[fam][i]})
 Cases == UNION {{[fam |-> fam, f1 |-> c[1], f2 |-> c[2], f3 |-> c[3], f4 |-> c[4], f5 |-> c[5]] :
@@ -106,8 +114,18 @@ Lzip(c) ==
   ELSE IF c.f3 # "right" \/ c.f4 # "right" THEN ERR
   ELSE OK
 
+\* the second chunk of an LZMA2 stream: an LZMA chunk that neither carries props (control < 0xC0) nor follows a chunk that
+\* did is refused; after an LZMA chunk the coder exists and any control byte >= 0x80 is structurally fine
+Lzma2Seq(c) ==
+  IF c.f2 \in {"03", "none"} THEN ERR
+  ELSE IF c.f2 \in {"00", "01", "02"} THEN OK
+  ELSE IF c.f1 = "01" /\ c.f2 \in {"80", "9f", "a0", "bf"} THEN ERR        \* no props seen yet: there is no LZMA coder to continue
+  ELSE ANY
+
 Expected(c) ==
   CASE c.fam = "xz_index" -> XzIndex(c)
+    [] c.fam = "lzma2_seq" -> Lzma2Seq(c)
+    [] c.fam = "lzip_multi" -> ERR
     [] c.fam = "xz_bh" -> XzBh(c)
     [] c.fam = "lzma2" -> Lzma2(c)
     [] c.fam = "lzma" -> Lzma(c)
@@ -120,6 +138,8 @@ Expected(c) ==
 \* dictionary the input declares, in KiB (what the decoder is entitled to allocate for it)
 DictKiB(c) ==
   CASE c.fam = "xz_bh" -> (IF c.f3 = "0" THEN 4 ELSE IF c.f3 = "18" THEN 2048 ELSE IF c.f3 = "39" THEN 3145728 ELSE IF c.f3 = "40" THEN 4194304 ELSE 0)
+    [] c.fam = "lzma2_seq" -> (IF c.f5 = "4096" THEN 4 ELSE 64)
+    [] c.fam = "lzip_multi" -> 4
     [] c.fam = "lzma2" -> (IF c.f5 \in {"4096", "0", "1"} THEN 4 ELSE IF c.f5 = "64k" THEN 64 ELSE 4194304)   \* below 4 KiB: raised to the minimum
     [] c.fam = "lzma" -> (IF c.f2 = "2p32m16" /\ c.f3 \in {"2p63", "unknown"} THEN 4194304 ELSE 4)    \* clamped to the declared size otherwise
     [] c.fam = "lzip" -> (IF c.f2 = "1d" THEN 524288 ELSE IF c.f2 = "fd" THEN 294912 ELSE 4)
